@@ -217,6 +217,28 @@ def spaces_between_tokens(text, rng):
     return derive.replace_spans(text, spans) if spans else None
 
 
+def tight_spacing(text, rng):
+    """Remove the blanks between two tokens of one line where at least one of them is an operator / delimiter
+    (`lambda: 0` -> `lambda:0`, `a = b` -> `a=b`, `f(a, b)` -> `f(a,b)`); the reference-equality filter drops the
+    rewrites that glue two tokens into a different one."""
+    toks, P = _toks(text)
+    if not toks:
+        return None
+    spans = []
+    sig = (T.NAME, T.NUMBER, T.STRING, T.OP)
+    for k in range(len(toks) - 1):
+        a, b = toks[k], toks[k + 1]
+        if a.type in sig and b.type in sig and a.end[0] == b.start[0] and (a.type == T.OP or b.type == T.OP) and rng.random() < .5:
+            i, j = P.idx(a.end), P.idx(b.start)
+            if j > i and text[i:j].strip(" \t") == "":
+                if a.type == T.OP and b.type == T.OP and (a.string + b.string) in ("**", "//", ">>", "<<", "->", ":=", "==", "!=", "<=", ">=", "+=", "-=", "*=", "/=", "%=", "&=", "|=", "^=", "@=", "...", "<>"):
+                    continue
+                if (a.type == T.NUMBER and b.string == ".") or (a.string == "." and b.type == T.NUMBER):
+                    continue
+                spans.append((i, j, ""))
+    return derive.replace_spans(text, spans) if spans else None
+
+
 def redundant_parens(text, rng):
     """Parenthesise load-context expression operands (positions from the reference's AST)."""
     if "\r" in text:
@@ -326,13 +348,14 @@ REWRITES = {
     "backslash_joins": backslash_joins,
     "bracket_newlines": bracket_newlines,
     "token_spacing": spaces_between_tokens,
+    "tight_spacing": tight_spacing,
     "redundant_parens": redundant_parens,
     "bom": bom,
     "eof_whitespace": eof_whitespace,
     "newline_style": newline_style,
 }
 # rewrites that need an LF-only, form-feed-free input come first in a composition
-ORDER = ["redundant_parens", "reindent", "backslash_joins", "bracket_newlines", "token_spacing", "trailing_blanks", "blank_comment_lines",
+ORDER = ["redundant_parens", "reindent", "backslash_joins", "bracket_newlines", "token_spacing", "tight_spacing", "trailing_blanks", "blank_comment_lines",
          "eol_comments", "form_feeds_between_tokens", "form_feeds", "eof_whitespace", "bom", "newline_style"]
 
 
